@@ -78,6 +78,11 @@ def gen_c10(rng, tier, n):
         napp = {0: 0}
         cur = 0
         rec = 1
+        if rng.random() < 0.25 and not lines[0].startswith("kind ds"):
+            # the very first append of a fresh store arrives with a context that is already over
+            lines.append("appenddead %d" % rec); rec += 1
+            if lines[0] == "kind mem":
+                napp[0] = 1
         for _ in range(rng.randint(6, 40)):
             x = rng.random()
             if x < 0.45:
@@ -164,6 +169,27 @@ def gen_c11(rng, tier, n):
         cases.append(lines)
     return cases
 
+def gen_pubdead(rng, tier, n):
+    """C13 over the real memory / SQLite stores: the FIRST publish of a fresh store has a context that is already over (the
+    store may refuse it: reported once), the publishes after it are persisted normally"""
+    cases = []
+    for _ in range(n):
+        lines = [rng.choice(["kind mem", "kind sqlite batch=0", "kind sqlite batch=2"])]
+        prec = 500000 + rng.randrange(900)
+        if rng.random() < 0.7:
+            lines.append("pubdead %d" % prec); prec += 1
+        for _ in range(rng.randint(2, 8)):
+            x = rng.random()
+            if x < 0.2:
+                lines.append("pubdead %d" % prec); prec += 1
+            elif x < 0.8:
+                lines.append("pub %d" % prec); prec += 1
+            else:
+                lines.append("read - 0")
+        lines.append("read - 0")
+        cases.append(lines)
+    return cases
+
 def gen_flaky(rng, tier, n):
     """C13 over the real durable-streams store: the server stores an event but its acknowledgement is lost (502 from a
     gateway): the publish still delivers, the failure is reported once, and the event is not sent a second time"""
@@ -241,10 +267,10 @@ def nontrivial(prop, lines, impl):
 
 def property_fails(prop, lines, impl, model):
     impl, model = normalize(lines, impl, model)
-    keep = {"C10": ("append", "read", "save", "load", "use", "replay", "drop", "raceappend", "streamtwice", "appendnil"),
+    keep = {"C10": ("append", "read", "save", "load", "use", "replay", "drop", "raceappend", "streamtwice", "appendnil", "appenddead"),
             "C11": ("replay", "busreplay", "nestedreplay"),
             "C09": ("pub", "replaypub", "read", "pubhookpanic"), "C03": ("pub", "replaypub", "read", "pubhookpanic"),
-            "C13": ("pub", "pubflaky", "read")}.get(prop, ("replay",))
+            "C13": ("pub", "pubflaky", "pubdead", "read")}.get(prop, ("replay",))
     a = [l for l in (impl or ["<none>"]) if l.startswith("!") or l.split(" ", 1)[0] in keep]
     b = [l for l in (model or ["<none>"]) if l.startswith("!") or l.split(" ", 1)[0] in keep]
     if a == b:
